@@ -1,5 +1,5 @@
 """C13 (and the software half of C12): services and applications follow their lifecycle."""
-from pyvc.contracts import contract, spec, inline, attr_types, writers
+from pyvc.contracts import contract, spec, inline, attr_types, writers, dispatch_contract
 
 SV = "src/primaite/simulator/system/services/service.py"
 AP = "src/primaite/simulator/system/applications/application.py"
@@ -116,3 +116,49 @@ writers("C13", "operating_state",
          "src/primaite/simulator/network/hardware/nodes/network/wireless_router.py::WirelessRouter.from_config",
          "src/primaite/simulator/system/core/software_manager.py::SoftwareManager.install"],
         why="operating state changes only along the documented transitions")
+
+# ---- installing / uninstalling keeps the node's registries in agreement (C13; C05: no route to software that is gone) ----
+SWM = "src/primaite/simulator/system/core/software_manager.py"
+attr_types({"Node._application_request_manager": "RequestManager", "Node._service_request_manager": "RequestManager",
+            "Node._nic_request_manager": "RequestManager", "Node._process_request_manager": "RequestManager",
+            "Node._os_request_manager": "RequestManager", "Node._software_request_manager": "RequestManager",
+            "Node._application_manager": "RequestManager"})
+# what a piece of software does when told it is being uninstalled (overrides close connections, send packets ...):
+# anything, except touching the registries that SoftwareManager.uninstall is about to update
+dispatch_contract(f"{SW}::Software.uninstall",
+                  ensures=[], modifies=["heap"], allocates=True,
+                  preserves=["SoftwareManager.software", "SoftwareManager.node", "SoftwareManager.port_protocol_mapping",
+                             "SoftwareManager._software_class_to_name_map", "SoftwareManager.sys_log",
+                             "Node.applications", "Node.services", "Node._application_request_manager", "Node._service_request_manager",
+                             "RequestManager.request_types", "Software.name", "SimComponent.uuid",
+                             "self.software_manager.software{*}", "self.software_manager.node.applications{*}",
+                             "self.software_manager.node.services{*}", "self.software_manager.port_protocol_mapping{*}",
+                             "self.software_manager._software_class_to_name_map{*}",
+                             "self.software_manager.node._application_request_manager.request_types{*}",
+                             "self.software_manager.node._service_request_manager.request_types{*}"])
+# registries agree for one installed piece of software
+spec("registered(sm, name)", """
+    sm.software[name].name == name and sm.software[name].software_manager is sm
+    and implies(isinstance(sm.software[name], Application), sm.software[name].uuid in sm.node.applications
+                and name in sm.node._application_request_manager.request_types)
+    and implies(isinstance(sm.software[name], Service), sm.software[name].uuid in sm.node.services
+                and name in sm.node._service_request_manager.request_types)
+""")
+contract(f"{SWM}::SoftwareManager.uninstall", props=["C13", "C05"],
+         # scope: uninstalling an *application* (the only uninstall reachable from agent actions); the service branch,
+         # with its second uninstall() call-back, is left unverified
+         requires=["implies(software_name in self.software, registered(self, software_name) and isinstance(self.software[software_name], Application))",
+                   "self.node._application_request_manager is not self.node._service_request_manager"],
+         ensures=[("gone_from_software", "software_name not in self.software"),
+                  # "installing or uninstalling software keeps the node's software list, its request routes ... in agreement"
+                  ("application_route_removed", "implies(old(software_name in self.software and isinstance(self.software[software_name], Application)),"
+                                                " software_name not in self.node._application_request_manager.request_types"
+                                                " and old(self.software[software_name].uuid) not in self.node.applications)"),
+                  ("service_route_removed", "implies(old(software_name in self.software and isinstance(self.software[software_name], Service)),"
+                                            " software_name not in self.node._service_request_manager.request_types"
+                                            " and old(self.software[software_name].uuid) not in self.node.services)"),
+                  ("unknown_name_changes_nothing", "implies(not old(software_name in self.software), unchanged())")],
+         modifies=["heap"], allocates=True,
+         # both loops leave (break) right after their only modification, so no iteration starts from a modified state
+         loops={0: {"inv": [], "modifies": []}, 1: {"inv": [], "modifies": []}})
+inline("src/primaite/simulator/core.py::SimComponent.parent")
